@@ -161,6 +161,23 @@ def col2(ctx, lib):
                                   % (vname, _show_key(ck), _show_key(plain_key), ", ".join("%s=%s" % kv for kv in la.label)), col.loc())
                 else:
                     ctx.ok("COL-2", "Component::%s|%s" % (vname, ";".join("%s=%s" % kv for kv in la.label[1:] + lb.label[1:])), {"plain": ccp.show(w[0]["value"])}, col.loc())
+            # COL-4 on this leaf: a line break never sits inside a colour span (between an SGR start and the reset): the indenter splits the coloured text into lines
+            # and drops empty ones *before* stripping, so a line consisting of a reset code alone would survive as a whitespace-only line
+            flat = "".join(p if isinstance(p, str) else "\x00" for p in la.value.parts)
+            inside = False
+            broke = False
+            for mm in re.finditer(r"\x1b\[([0-9;]*)m|\n", flat):
+                if mm.group(0) == "\n":
+                    if inside:
+                        broke = True
+                else:
+                    inside = mm.group(1) not in ("0", "")
+            if broke:
+                ctx.violation("COL-4", (col.path, "Component::" + vname, "line break inside a colour span"),
+                              "the coloured rendering of Component::%s puts a line break before the reset code (%r): after the indenter has split the output into lines, the next "
+                              "line starts with the bare reset code and is no longer recognised as empty" % (vname, flat.replace("\x00", "{}")), col.loc())
+            else:
+                ctx.ok("COL-4", "Component::%s|%s" % (vname, ";".join("%s=%s" % kv for kv in la.label[1:])), None, col.loc())
             # COL-3 on this leaf: no ESC survives the repo's own stripper, and nothing but SGR is removed
             for p in la.value.parts:
                 if isinstance(p, str):
@@ -280,6 +297,7 @@ def run(ctx):
     ctx.rule("COL-2", "for each of the 18 Component variants and every valuation of its flags, the coloured rendering minus SGR sequences (as defined by the repo's own stripping pattern) "
                       "equals the plain rendering (ccp string templates)")
     ctx.rule("COL-3", "writer/reader agreement on the SGR syntax: every constant colour code and the reset, as written by the SGR writer, fully matches the stripping pattern")
+    ctx.rule("COL-4", "in every coloured component rendering the line break is outside the colour span (the indenter drops empty lines before stripping colour codes)")
     ctx.rule("IND-1", "nesting decisions of the indenter are taken on the colour-stripped line (or by colour-insensitive predicates) and never on a test for the colour prefix")
     ctx.assume("whole-output equality additionally relies on PLB-1 (C06) and on the component decomposition; the indenter's plain heuristics themselves are not judged")
     prog = common.view(ctx, "default")
